@@ -585,6 +585,19 @@ func (s *state) step(line string) string {
 			res += " " + ev
 		}
 		return res
+	case "cfginv":
+		// headers.Config.InvalidHeaderHashes: takes effect in the next repository object (NewRepository + Load)
+		ids, ok := a.NatList("ids")
+		if !ok {
+			return op + " => bad-op"
+		}
+		cfg := *s.cfg
+		cfg.InvalidHeaderHashes = nil
+		for _, id := range ids {
+			cfg.InvalidHeaderHashes = append(cfg.InvalidHeaderHashes, s.hashOf(id))
+		}
+		s.cfg = &cfg
+		return op + " => ok"
 	case "load", "loadd":
 		repo := s.newRepo()
 		out, ptxt := hx.Guard(func() string {
